@@ -394,6 +394,10 @@ func (r *Run) ReplayFiles() []string {
 		}
 		return nil
 	}
+	if os.Getenv("VERIF_SKIP_REPLAY") != "" {
+		// sensitivity experiments only (seedtool): measure the generated search without the regression tier
+		return nil
+	}
 	m, _ := filepath.Glob(filepath.Join(r.Root, "replay", r.ID, "*.json"))
 	sort.Strings(m)
 	var out []string
